@@ -8,6 +8,10 @@ C10 — property theorems (statements + proofs + non-vacuity examples only).
 * `broadcast_batcher_lower_rank_refuted`  without the rank hypothesis the statement is FALSE: a mapped
                                      operand of lower (non-zero) per-example rank gets trailing instead
                                      of leading singleton axes
+* `reduction_batch_rule_shape`       the vmap rule of the jnp reductions (batch axis to the front, axes
+                                     shifted by one, batch dim 0) yields the per-example result shape with the
+                                     batch axis in front — any axes, with or without keepdims;
+                                     `inPlace_rule_refuted_with_keepdims`: the in-place shortcut is wrong
 * `inline_fresh_sound`               inlining a closed jaxpr under an injective renaming into fresh
                                      variables (JitPlugin._freshen_closed_jaxpr + lower) agrees with the
                                      opaque call on every variable outside the fresh ones
@@ -72,6 +76,46 @@ theorem broadcast_batcher_lower_rank_refuted :
         (bindPointwise sub2 ([(enc [2, 3] 0, some 0), (enc [3, 3] 0, none)].map fun p => lane p.1 p.2 1)).get [0, 2] :=
   ⟨_, _, rfl, by decide⟩
 end Examples
+
+/-! ## the reduction batch rule -/
+
+theorem reduceShapeFrom_shift (kd : Bool) (axes : List Nat) (i : Nat) (s : List Nat) :
+    reduceShapeFrom kd (axes.map (· + 1)) (i + 1) s = reduceShapeFrom kd axes i s := by
+  induction s generalizing i with
+  | nil => rfl
+  | cons d ds ih =>
+    have hm : (i + 1 ∈ axes.map (· + 1)) ↔ i ∈ axes := by
+      simp [List.mem_map]
+    simp only [reduceShapeFrom, hm, ih]
+
+/-- **Shape correctness of the reduction batch rule.**  Moving the batch axis to the front and
+    reducing over the per-example axes shifted by one gives, for every per-example shape `s`,
+    every set of axes, every batch size and with or without `keepdims`, the per-example result
+    shape with the batch axis in front — i.e. the reported batch dim `0` is right in all cases. -/
+theorem reduction_batch_rule_shape (kd : Bool) (B : Nat) (s : List Nat) (axes : List Nat) :
+    reduceShape kd (axes.map (· + 1)) (B :: s) = B :: reduceShape kd axes s := by
+  have h0 : ¬ (0 ∈ axes.map (· + 1)) := by simp [List.mem_map]
+  simp only [reduceShape, reduceShapeFrom, h0, if_false]
+  rw [reduceShapeFrom_shift]
+
+/-- the rule always reports batch dim 0 and shifts every normalised axis by one -/
+theorem reduction_batch_rule_dims (shape : List Nat) (bdim : Nat) (axes : Option (List Int)) :
+    (reductionBatchRule shape bdim axes).2.2 = 0 ∧
+    ∀ a ∈ (reductionBatchRule shape bdim axes).2.1, 1 ≤ a := by
+  refine ⟨rfl, ?_⟩
+  intro a ha
+  simp only [reductionBatchRule, List.mem_map] at ha
+  obtain ⟨b, _, rfl⟩ := ha
+  omega
+
+example : reductionBatchRule [4, 2, 3] 1 (some [0]) = ([2, 4, 3], [1], 0) := by decide
+example : reduceShape true [1] [2, 4, 3] = [2, 1, 3] ∧ reduceShape false [1, 2] [2, 4, 3] = [2] := by decide
+
+/-- The "reduce in place and report `bdim − #reduced axes in front`" rule is WRONG with
+    `keepdims`: operand `(4,2,3)` batched at axis 1, per-example reduction over axis 0 with
+    keepdims: the result has shape `(1,2,3)` with the batch axis still at 1, the formula says 0. -/
+theorem inPlace_rule_refuted_with_keepdims :
+    reduceShape true [0] [4, 2, 3] = [1, 2, 3] ∧ inPlaceOutDim 1 [0] = 0 := by decide
 
 /-! ## jaxpr inlining with fresh variables -/
 
